@@ -9,6 +9,8 @@ Part 1: the round timer of protocol/v2/qbft/roundtimer/timer.go
   * `waitForRound`   → `Op.expire`  (the timer channel wins the select; callback iff armed round = the goroutine's round)
                        `Op.reap`    (the ctx.Done branch wins the select; only possible once the context is cancelled)
   * parent context   → `Op.cancel`
+  * `OnTimeout(done)`→ `Op.register` (replaces the callback unconditionally; `nil` = no callback). `New(.., done)` is
+                       `init` followed by one `register`. A callback invocation names the handler it went to.
   ASSUMPTION (Go runtime, not proved): a `time.Timer` never fires early, i.e. `expire` is enabled only when
   `now ≥ deadline`. The differential harness measures it, the theorems assume it.
   The check `t.Round() == round` and the call `done(round)` are modelled as one atomic step.
@@ -86,6 +88,7 @@ structure Fire where
   id : Nat
   round : Nat
   time : Nat
+  handler : Nat          -- which registered callback (`t.done` at that moment) was invoked
 deriving Repr, DecidableEq
 
 inductive Op where
@@ -93,6 +96,7 @@ inductive Op where
   | expire (id now : Nat)    -- the timer of arming `id` delivers on its channel at time now and wins the select
   | cancel                   -- parent context cancelled
   | reap (id : Nat)          -- goroutine of arming `id` leaves through ctx.Done()
+  | register (k : Option Nat) -- OnTimeout(done): `some k` = handler number k, `none` = nil
 deriving Repr, DecidableEq
 
 structure State where
@@ -101,9 +105,10 @@ structure State where
   cancelled : Bool
   nextId : Nat
   log : List Pend        -- ghost: every arming so far, oldest first (never read by `step`)
+  handler : Option Nat   -- RoundTimer.done
 deriving Repr, DecidableEq
 
-def init : State := { armed := 0, pending := [], cancelled := false, nextId := 0, log := [] }
+def init : State := { armed := 0, pending := [], cancelled := false, nextId := 0, log := [], handler := none }
 
 def step (c : Cfg) (s : State) : Op → State × Option Fire
   | .arm h r now =>
@@ -115,10 +120,15 @@ def step (c : Cfg) (s : State) : Op → State × Option Fire
     | some p =>
       if now < p.deadline then (s, none)                  -- not enabled: timers do not fire early (assumption)
       else ({ s with pending := s.pending.filter (fun q => q.id != id) },
-            if s.armed = p.round then some { id := p.id, round := p.round, time := now } else none)
+            if s.armed = p.round then
+              (match s.handler with
+               | some k => some { id := p.id, round := p.round, time := now, handler := k }
+               | none => none)                            -- `done == nil`: the goroutine ends without a callback
+            else none)
   | .cancel => ({ s with cancelled := true }, none)
   | .reap id =>
     if s.cancelled then ({ s with pending := s.pending.filter (fun q => q.id != id) }, none) else (s, none)
+  | .register k => ({ s with handler := k }, none)
 
 def run (c : Cfg) : State → List Op → State × List Fire
   | s, [] => (s, [])
